@@ -1,4 +1,5 @@
 import TLVerif.Codec.BytesVariant
+import TLVerif.Codec.BytesVariantCanon
 import TLVerif.Codec.TL1Example
 /-!
 # C10 — `[]byte` variants behave like string variants (TL1)
@@ -16,6 +17,9 @@ instances selected by `sl` — those that have a bytes version — are slices; t
   they re-encode to the same bytes (`bytes_variant_rewrites_equal`);
 * `strict_accepts_example` / `canonical_example` — the hypothesis is met by a concrete non-trivial input
   (a two-entry dictionary) and the conclusion computed on it;
+* `bytes_variant_canonical` — the `[]byte` variant re-encodes *every* accepted input byte for byte (dictionaries included:
+  a slice keeps order and duplicates), `string_variant_canonical_on_canonical_input` — so does the string variant on
+  canonical input (C02 extended to dictionary-bearing types under the property's hypothesis);
 * `variants_differ_on_duplicate_key` — the hypothesis is needed: a concrete input with a repeated key on
   which the two variants return different values (the `[]byte` variant keeps both entries).
 
@@ -324,6 +328,30 @@ theorem bytes_variant_rewrites_equal (sl sl' : Nat → Bool) (cfg : Cfg) (d : De
   obtain ⟨h1, h2⟩ := bytes_variant_agrees_on_canonical sl sl' cfg d fuel ty bare params bs v rest h
   exact ⟨v, v, rest, rest, h1, h2, rfl, fun _ => rfl⟩
 
+/-- **C10 (the `[]byte` variant is canonical, dictionaries included)**: on a reference-closed set of instances without the
+TL2 `bit` primitive, whatever the slice-backed reader accepts is, byte for byte, the shared writer's output for the decoded
+value followed by the unread rest — for *every* input, also with repeated or descending keys (contrast
+`C02.tl1_canonical_fails_at_dict` for the map-backed string variant). -/
+theorem bytes_variant_canonical (cfg : Cfg) (d : Desc) (S : Nat → Bool) (hcl : d.closed S = true)
+    (hnb : d.allOn S (fun i => !i.isBitPrim) = true)
+    (fuel ty : Nat) (bare : Bool) (params : List Nat) (bs : Bytes) (v : Val) (rest : Bytes) (hS : S ty = true)
+    (h : readTL1M .slice (fun _ => true) cfg d fuel ty bare params bs = .ok (v, rest)) :
+    ∃ pre, bs = pre ++ rest ∧ writeTL1 d fuel ty bare params v = .ok pre := by
+  obtain ⟨pre, w, e, hw, r⟩ := readTL1M_slice_canon cfg d S hcl hnb fuel _ _ _ _ _ _ hS h
+  exact ⟨pre, e, by rw [hw, r]⟩
+
+/-- consequence for the *string* variant: on canonical input (strict reader accepts) it is canonical too, dictionaries
+included — it decodes the value the `[]byte` variant decodes, and the shared writer gives back the consumed bytes. This is
+C02's statement extended to dictionary-bearing types, under exactly the property's "canonical input" hypothesis. -/
+theorem string_variant_canonical_on_canonical_input (cfg : Cfg) (d : Desc) (S : Nat → Bool) (hcl : d.closed S = true)
+    (hnb : d.allOn S (fun i => !i.isBitPrim) = true)
+    (fuel ty : Nat) (bare : Bool) (params : List Nat) (bs : Bytes) (v : Val) (rest : Bytes) (hS : S ty = true)
+    (h : readTL1M .strict (fun _ => true) cfg d fuel ty bare params bs = .ok (v, rest)) :
+    readTL1 cfg d fuel ty bare params bs = .ok (v, rest) ∧
+    ∃ pre, bs = pre ++ rest ∧ writeTL1 d fuel ty bare params v = .ok pre := by
+  obtain ⟨h1, h2⟩ := bytes_variant_agrees_on_canonical (fun _ => true) (fun _ => true) cfg d fuel ty bare params bs v rest h
+  exact ⟨h1, bytes_variant_canonical cfg d S hcl hnb fuel ty bare params bs v rest hS h2⟩
+
 /-! ## non-vacuity and necessity of the hypothesis -/
 
 /-- the hypothesis is satisfiable: a two-entry `dictionary<int,int>` with ascending keys 1 < 2 -/
@@ -354,5 +382,8 @@ theorem variants_differ_on_unsorted_keys :
     readTL1M .slice (fun _ => true) {} Ex.dictD 3 2 true [] [2,0,0,0, 5,0,0,0, 2,0,0,0, 1,0,0,0, 3,0,0,0]
       = .ok (.arr [.struct [some (.nat 5), some (.nat 2)], .struct [some (.nat 1), some (.nat 3)]], []) := by
   refine ⟨by rfl, by rfl⟩
+
+/-- `bytes_variant_canonical` applies to the dictionary descriptor: closed, no `bit` -/
+example : Ex.dictD.closed allInsts = true ∧ Ex.dictD.allOn allInsts (fun i => !i.isBitPrim) = true := by decide
 
 end TLVerif.Props.C10
